@@ -6,6 +6,9 @@
 //    (See accompanying file LICENSE_1_0.txt or copy at
 //          https://www.boost.org/LICENSE_1_0.txt)
 
+#include <boost/mpi/datatype.hpp>
+#include <boost/mpi/operations.hpp>
+
 #include <parmcb/sptrees.hpp>
 
 namespace boost {
